@@ -399,6 +399,13 @@ func (fs *FuncSpec) addClause(t, file string, ln int) error {
 			point = point[:j]
 		}
 		sub, b := splitWord(body)
+		if strings.HasPrefix(b, "[") {
+			j := strings.Index(b, "]")
+			for _, x := range strings.Split(b[1:j], ",") {
+				tags = append(tags, strings.TrimSpace(x))
+			}
+			b = strings.TrimSpace(b[j+1:])
+		}
 		switch sub {
 		case "assert":
 			c, err := mk("assert", b)
